@@ -460,6 +460,10 @@ pub struct SweepWorld<'a> {
     pub history: std::cell::RefCell<Vec<(Vec<Address>, Vec<Address>)>>,
     /// signer sets that were outside the gateway's retention window when the world was built
     pub old_sets: Vec<BuiltSet>,
+    /// the gateway's newest signer set (changes when a swept call rotates with a valid proof)
+    pub latest: std::cell::RefCell<BuiltSet>,
+    /// valid rotation proofs shown to the gateway so far: (hash of the proving set, candidate)
+    pub presented: std::cell::RefCell<Vec<([u8; 32], BuiltSet)>>,
 }
 
 pub const CUSTODY: i128 = 7_000;
@@ -467,17 +471,21 @@ pub const CUSTODY: i128 = 7_000;
 pub const TRUSTED: &str = "ethereum";
 
 pub fn build_world<'a>(open_windows: u8, symbols: &[String], with_inbound: bool) -> SweepWorld<'a> {
-    let mut w = build_its_world("stellar", "hub-address", 0);
+    let mut w = crate::itsw::build_its_world_retaining("stellar", "hub-address", 0, 1);
     let env = w.env.clone();
-    // the gateway (retention 0) has rotated twice: two signer sets are outside the window for good
+    // the gateway (which honours one previous signer set) has rotated three times: two signer sets are outside the
+    // window for good, one is the retained previous set
     let mut old_sets: Vec<BuiltSet> = vec![];
-    for tag in [8u16, 9] {
+    let latest0;
+    for tag in [8u16, 9, 10] {
         let next = simple_set(tag);
         env.mock_all_auths();
         assert!(w.gw.rotate(&env, &next, &w.set, w.set.full_mask(), false), "setup: honest rotation refused");
         old_sets.push(w.set.clone());
         w.set = next;
     }
+    old_sets.pop(); // (the set rotated away last is still inside the window)
+    latest0 = w.set.clone();
     w.trust(TRUSTED);
     let ops_owner = Address::generate(&env);
     let ops_operator = Address::generate(&env);
@@ -603,7 +611,7 @@ pub fn build_world<'a>(open_windows: u8, symbols: &[String], with_inbound: bool)
     names.sort();
     names.dedup();
     env.set_auths(&[]);
-    SweepWorld { w, ops, ops_owner, ops_operator, upgrader, example, t1, t1_id, t2, t2_owner, minter, user_a, user_b, stranger, accounts, contracts, names, gas2, approved, canonical_id, inbound, anyfn, history: Default::default(), old_sets }
+    SweepWorld { w, ops, ops_owner, ops_operator, upgrader, example, t1, t1_id, t2, t2_owner, minter, user_a, user_b, stranger, accounts, contracts, names, gas2, approved, canonical_id, inbound, anyfn, history: Default::default(), old_sets, latest: std::cell::RefCell::new(latest0), presented: Default::default() }
 }
 
 impl<'a> SweepWorld<'a> {
@@ -880,7 +888,7 @@ fn feature_sequence(unlisted: &[Ep], all: &[Ep], s0: u64, picks: &[u64]) -> Swee
     let old_eps: Vec<&Ep> = all.iter().filter(|e| e.contract == contract && !e.unlisted).collect();
     // older entry points whose name shares a word with a new one (transfer_ownership ~ propose_ownership, remove_operator ~
     // nominate_operator, rotate_signers ~ schedule_rotation ...): the likeliest to interact; they get three older picks in four
-    let words = |n: &str| -> Vec<String> { n.split('_').filter(|w| w.len() >= 5).map(|w| w.trim_end_matches('s').chars().take(6).collect::<String>()).collect() };
+    let words = |n: &str| -> Vec<String> { n.split('_').filter(|w| w.len() >= 5).map(|w| w.trim_end_matches('s').chars().take(5).collect::<String>()).collect() };
     let new_words: Vec<String> = new_eps.iter().flat_map(|e| words(&e.name)).collect();
     let related: Vec<&Ep> = old_eps.iter().filter(|e| words(&e.name).iter().any(|w| new_words.contains(w))).cloned().collect();
     let narrow = s0 / 7 % 3 + 2; // 2..4 pool positions per argument
@@ -1008,6 +1016,19 @@ fn step(sw: &SweepWorld, ep: &Ep, seeds: &[u64], pick: u64, cx: &mut Cx, rule: R
     }
     if args.len() as usize != ep.types.len() {
         return Ok(false);
+    }
+    // a signer set and a proof in one call: in half of the cases the proof is a *valid* rotation proof of the gateway's newest
+    // set for exactly that candidate (so that rotations, and whatever a tree builds on them, can really happen)
+    if let (Some(iw), Some(ip)) = (ep.types.iter().position(|t| t == "WeightedSigners"), ep.types.iter().position(|t| t == "Proof")) {
+        if seeds[iw] % 2 == 0 && rule == Rule::Proofless {
+            let cand = simple_set(60 + (seeds[iw] / 2 % 5) as u16);
+            let latest = sw.latest.borrow().clone();
+            let proof = latest.proof(&env, &digest(&sw.w.gw.domain, &latest.hash(), &cand.rotation_data_hash()), latest.full_mask());
+            args.set(iw as u32, cand.to_soroban(&env).into_val(&env));
+            args.set(ip as u32, proof.into_val(&env));
+            sw.presented.borrow_mut().push((latest.hash(), cand));
+            cx.label("sweep_valid_rotation_proof_presented");
+        }
     }
     // a delivery to the token service: in half of the cases exactly the approved, conforming hub message
     if let Some((mid, payload)) = &sw.inbound {
@@ -1287,7 +1308,21 @@ fn step(sw: &SweepWorld, ep: &Ep, seeds: &[u64], pick: u64, cx: &mut Cx, rule: R
         Rule::Proofless => {
             let gw_ev = |name: &str| evs.iter().any(|e| e.0 == sw.w.gw.id && e.1.first() == Some(&sym(name)));
             if after.epoch != before.epoch || gw_ev("signers_rotated") {
-                return Err(format!("{} installed a signer set although no valid proof for a rotation exists", what));
+                // allowed only as the rotation somebody proved: the installed set is a candidate for which the set that was
+                // newest just before this call signed a rotation (shown in this call or earlier in the sequence)
+                let hash_at = |e: u64| sw.w.gw.client.try_signers_hash_by_epoch(&e).ok().and_then(|r| r.ok()).map(|h| h.to_array());
+                let newest_before = hash_at(before.epoch);
+                let installed = hash_at(after.epoch);
+                let proved = after.epoch == before.epoch + 1
+                    && sw.presented.borrow().iter().any(|(p, c)| Some(*p) == newest_before && Some(c.hash()) == installed);
+                if !proved {
+                    return Err(format!("{} installed a signer set (epoch {} -> {}) for which the set that was newest at that moment never signed a rotation", what, before.epoch, after.epoch));
+                }
+                let cand = sw.presented.borrow().iter().find(|(_, c)| Some(c.hash()) == installed).map(|(_, c)| c.clone());
+                if let Some(c) = cand {
+                    *sw.latest.borrow_mut() = c;
+                }
+                cx.count("sweep_proved_rotation");
             }
             // fresh (chain, id) pairs the generators can name
             let newly = ["msg-3", "msg-4"].iter().any(|i| {
